@@ -134,9 +134,9 @@ static void ops_sequence(void *arg)
 	note_secret_key(&key); note_secret_key(&key2);
 
 	for (int i = 0; i < n; i++) {
-		int op = (int)rng_below(&g_orng, 12);
+		int op = (int)rng_below(&g_orng, 14);
 		sim_progress();
-		if (op >= 10) { g_nops_done++; op_ctx_from_files(); continue; }
+		if (op == 10 || op == 11) { g_nops_done++; op_ctx_from_files(); continue; }
 		int bad = rng_chance(&g_orng, 1, 3);        /* take a failure path */
 		g_nops_done++;
 		switch (op) {
@@ -211,7 +211,11 @@ static void ops_sequence(void *arg)
 				OID_cms_data, msg, sizeof(msg), NULL, 0, NULL, 0) != 1) { unexpected("cms_envelop"); break; }
 			if (bad) corrupt(cms + len / 2, len / 2);
 			const uint8_t *ri, *s1, *s2; size_t rilen, s1len, s2len;
-			int ret = cms_deenvelop(cms, len, bad == 1 && rng_chance(&g_orng, 1, 2) ? &cs->cli_sign.key : &cs->srv_sign.key,
+			/* cms_deenvelop compares the raw point structure of the key with the one parsed from the certificate, so the
+			 * key must hold its public point the way a parser leaves it (observed: a freshly generated key never matches) */
+			SM2_KEY rk = cs->srv_sign.key; uint8_t xy[64];
+			sm2_z256_point_to_bytes(&rk.public_key, xy); sm2_z256_point_from_bytes(&rk.public_key, xy);
+			int ret = cms_deenvelop(cms, len, bad == 1 && rng_chance(&g_orng, 1, 2) ? &cs->cli_sign.key : &rk,
 				cs->srv_sign.cert, cs->srv_sign.certlen, &ct, content, &clen, &ri, &rilen, &s1, &s1len, &s2, &s2len);
 			if (!bad && ret != 1) unexpected("cms_deenvelop");
 			break; }
@@ -233,6 +237,30 @@ static void ops_sequence(void *arg)
 			uint8_t eh[5] = { 23, 1, 1, (uint8_t)(outlen >> 8), (uint8_t)outlen };
 			int ret = tls_cbc_decrypt(&h, &dk, seq, eh, out, outlen, dec, &declen);
 			if (!bad && ret != 1) unexpected("tls_cbc_decrypt");
+			break; }
+		case 12: { /* SM4-CBC streaming decryption with the right key; the ciphertext may have lost or damaged its padding */
+			SM4_CBC_CTX cc; uint8_t k16[16], iv[16], ct[128], pt[128]; size_t cl = 0, fl = 0, pl = 0, ql = 0, m = 1 + rng_below(&g_orng, 80);
+			rng_bytes(&g_orng, k16, 16); rng_bytes(&g_orng, iv, 16);
+			leak_add_secret("content_key", k16, 16);
+			if (sm4_cbc_encrypt_init(&cc, k16, iv) != 1 || sm4_cbc_encrypt_update(&cc, msg, m, ct, &cl) != 1 || sm4_cbc_encrypt_finish(&cc, ct + cl, &fl) != 1) { unexpected("sm4_cbc_encrypt"); break; }
+			cl += fl;
+			if (bad && cl >= 32) {
+				if (rng_chance(&g_orng, 1, 2)) ct[cl - 17 - rng_below(&g_orng, 2)] ^= (uint8_t)(1u << rng_below(&g_orng, 8));   /* lands in the padding of the last block */
+				else cl -= 16;                                                                                              /* the padding block never arrived */
+			}
+			int ret = sm4_cbc_decrypt_init(&cc, k16, iv) == 1 && sm4_cbc_decrypt_update(&cc, ct, cl, pt, &pl) == 1 && sm4_cbc_decrypt_finish(&cc, pt + pl, &ql) == 1;
+			if (!bad && !ret) unexpected("sm4_cbc_decrypt");
+			break; }
+		case 13: { /* CMS EncryptedData opened with the right key, intact or damaged in its last blocks */
+			static uint8_t cms[1024], content[256];
+			uint8_t k16[16], iv[16]; size_t len = 0, clen = 0, m = 1 + rng_below(&g_orng, 80); int alg, ct;
+			const uint8_t *s1, *s2; size_t s1len, s2len;
+			rng_bytes(&g_orng, k16, 16); rng_bytes(&g_orng, iv, 16);
+			leak_add_secret("content_key", k16, 16);
+			if (cms_encrypt(cms, &len, OID_sm4_cbc, k16, 16, iv, 16, OID_cms_data, msg, m, NULL, 0, NULL, 0) != 1) { unexpected("cms_encrypt"); break; }
+			if (bad && len > 40) cms[len - 17 - rng_below(&g_orng, 16)] ^= (uint8_t)(1u << rng_below(&g_orng, 8));
+			int ret = cms_decrypt(cms, len, &alg, k16, 16, &ct, content, &clen, &s1, &s1len, &s2, &s2len);
+			if (!bad && ret != 1) unexpected("cms_decrypt");
 			break; }
 		default: { /* key generation + public export to a designated stream */
 			SM2_KEY k; char *mem = NULL; size_t mlen = 0;
@@ -277,7 +305,7 @@ static void ops_run(const Plan *p, RunResult *r)
 	arena_end();
 	r->nontrivial = g_nops_done > 0;
 	r->nontrivial_id = hash_bytes(0x0b5, &p->plan_seed, 8);
-	snprintf(r->extra, sizeof(r->extra), "proto=op mutual=0 depth=0 ops=%d unexpected=%d", g_nops_done, g_unexpected);
+	snprintf(r->extra, sizeof(r->extra), "proto=op mutual=0 depth=0 ops=%d unexpected=%d what=%s", g_nops_done, g_unexpected, g_unexpected ? g_unexpected_what : "-");
 	/* results of the operations are not this scenario's business (C19 is about
 	 * what reaches fd 1/2); unexpected ones are only counted in `extra` */
 }
